@@ -51,6 +51,20 @@ pub fn run_routes(out: &mut Out, rng: &mut Rng, thorough: bool) {
             }
         }
     }
+    run_routes_large(out, rng, thorough);
+}
+
+/// large masked inputs for `routes`: parallel loops that work block-wise (rayon splits above a few dozen cells) must keep
+/// global generator indices, also for cells that are not constructed
+fn run_routes_large(out: &mut Out, rng: &mut Rng, thorough: bool) {
+    let big = if thorough { 8 } else { 2 };
+    for b in 0..big {
+        let dim = if b % 2 == 0 { 3 } else { 2 };
+        let n = 130 + rng.below(if thorough { 400 } else { 120 }) as usize;
+        let inp = gen::make(rng, "uniform", dim, b % 4 >= 2, n);
+        let mask = Some(gen::make_mask(rng, inp.gens.len()));
+        emit_routes(out, &inp, &mask);
+    }
 }
 
 fn emit_routes(out: &mut Out, inp: &Input, mask: &Option<Vec<bool>>) {
